@@ -201,6 +201,9 @@ def run_job(job) -> report.JobResult:
             eng.solver.add(c.e < 128)  # case folding of header names is modelled exactly on Latin-1 only
     if entry in ("url-host", "url-query", "referer", "query_params", "url-path"):
         eng.sensitive_chars = URL_SENSITIVE
+    if entry == "referer":
+        # the port of the returned URL is read too: digits must be the real characters for int()
+        eng.sensitive_chars = tuple(sorted(set(URL_SENSITIVE) | set(range(48, 58))))
     if entry == "multipart-boundary":
         for c in text.items:
             eng.solver.add(z3.Or([c.e == k for k in BOUNDARY_CHARS]))
@@ -234,7 +237,7 @@ def run_job(job) -> report.JobResult:
             req = make_request(iface, {"referer": str(val)})
             r = req.referrer
             if r is not None:
-                str(r), r.path, r.hostname
+                str(r), r.path, r.hostname, r.port, repr(r)
             return "returned"
         if entry == "url-host":
             req = make_request(iface, {"host": str(val)})
@@ -392,7 +395,7 @@ def concrete(w) -> Optional[str]:
             elif entry == "referer":
                 r = make_request(iface, {"referer": val}).referrer
                 if r is not None:
-                    str(r), r.path, r.hostname
+                    str(r), r.path, r.hostname, r.port, repr(r)
             elif entry == "url-host":
                 u = make_request(iface, {"host": val}).url
                 str(u), u.path, u.hostname, u.netloc
